@@ -75,6 +75,7 @@ class Engine:
         self.trail = []        # [decision, pending_other_side, expr, kind]  kind: 'fork' | 'def'
         self.pos = 0
         self.memo = {}
+        self.memo_imp = {}
         self.keep = []
         self.epochs = [0]
         self.epoch_ctr = 0
@@ -202,6 +203,49 @@ class Engine:
         self.memo[key] = (True, self.pos, self._epoch_at(self.pos))
         self.keep.append(expr)
         return True
+
+    def implied(self, expr):
+        """True / False if the current path condition implies expr / its negation, else None.
+        Never forks.  Results are cached with the trail prefix they were derived under, so that
+        re-executions see the same answers (terms built from them stay identical)."""
+        if not z3.is_expr(expr):
+            return bool(expr)
+        expr = z3.simplify(expr)
+        if z3.is_true(expr):
+            return True
+        if z3.is_false(expr):
+            return False
+        key = expr.get_id()
+        hit = self.memo_imp.get(key)
+        if hit is not None and hit[1] <= self.pos and hit[2] == self._epoch_at(hit[1]):
+            return hit[0]
+        if self.pos < len(self.trail):
+            s = z3.Solver()
+            s.set("timeout", self.timeout_ms)
+            for d, _p, e, _k in self.trail[:self.pos]:
+                s.add(e if d else z3.Not(e))
+            t = time.time()
+            self.stats.queries += 2
+            rt, rf = str(s.check(expr)), str(s.check(z3.Not(expr)))
+            self.stats.solver_s += time.time() - t
+        else:
+            rt = rf = None
+            if self.model is not None:
+                v = self.model.eval(expr, model_completion=True)
+                if z3.is_true(v):
+                    rt = "sat"
+                elif z3.is_false(v):
+                    rf = "sat"
+            if rt is None:
+                rt = self._check(expr)
+            if rf is None:
+                rf = self._check(z3.Not(expr))
+        if rt == "unsat" and rf == "unsat":
+            raise Infeasible()
+        val = True if rf == "unsat" else (False if rt == "unsat" else None)
+        self.memo_imp[key] = (val, self.pos, self._epoch_at(self.pos))
+        self.keep.append(expr)
+        return val
 
     def _implied_during_replay(self, expr):
         # Conditions that are implied never enter the trail.  During replay the solver holds the
@@ -393,6 +437,14 @@ class Engine:
             return "violated", m
         if z3.is_true(e):
             return "holds", None
+        # cheap falsification first: a model of the path condition that already violates the claim
+        if self.model is None and self.pos == len(self.trail):
+            if self._check() == "sat":
+                self.model = self.solver.model()
+        if self.model is not None and z3.is_false(self.model.eval(e, model_completion=True)):
+            m0 = self.model
+            m = self.get_model(extra=(z3.Not(e),)) or m0
+            return "violated", m
         self.stats.claim_queries += 1
         r = self._check(z3.Not(e), claim=True)
         if r == "unsat":
